@@ -675,7 +675,25 @@ def gen_table_case(rng, exhaustive_index=None):
 
 
 # ---- malformed stream -----------------------------------------------------------------------------------------------
+def prune_maps(n):
+    """drop parameter-mapping entries the body no longer needs (MappingPT rejects them at construction)"""
+    for x in n.get('subs', []):
+        prune_maps(x)
+    for k in ('body', 'l', 'r'):
+        if k in n:
+            prune_maps(n[k])
+    if n['k'] == 'map':
+        used = free_params(n['body'])
+        n['pm'] = [[a, b] for a, b in n['pm'] if a in used]
+
+
 def malform(rng, case):
+    c = _malform(rng, case)
+    prune_maps(c['pt'])
+    return c
+
+
+def _malform(rng, case):
     """break one thing: drop a needed parameter, make a count / range value non-integer, a table non-monotone, durations
     of parallel atoms unequal, range step zero"""
     import copy
